@@ -366,3 +366,178 @@ Proof.
     cbv zeta. destruct (N.ltb_spec (d_scale a + d_scale b) 0) as [Hlt|_]; [lia|]. cbn [N.eqb].
     intros Hx. injection Hx as <-. unfold mul_is_exact, pow10. cbn [d_mant d_scale]. apply N.eqb_refl.
 Qed.
+
+(* ---------------------------------------------------------------- rate * total in general: never a whole unit off *)
+(* one 96-bit rounding (two on a carry) moves the value by at most 0.55 units of the last kept digit *)
+Lemma rescale_err v s m' s' :
+  rescale v s = Some (m', s') ->
+  s' <= s /\ 20 * (m' * 10 ^ (s - s')) <= 20 * v + 11 * 10 ^ (s - s') /\ 20 * v <= 20 * (m' * 10 ^ (s - s')) + 11 * 10 ^ (s - s').
+Proof.
+  unfold rescale. set (d := least_d 64 v (s - 28)).
+  destruct (N.ltb_spec s d) as [|Hds]; [discriminate|].
+  destruct (N.eqb_spec d 0) as [Hd0|Hdnz].
+  { intros H. injection H as <- <-. rewrite N.sub_diag, N.pow_0_r. lia. }
+  destruct (rhe_bounds_aux v (10 ^ d) (pow10_nz d)) as [L U]. unfold pow10.
+  set (m := rhe v (10 ^ d)) in *. pose proof (pow10_pos d) as Hp.
+  destruct (N.ltb_spec m B96) as [_|_].
+  - intros H. injection H as <- <-. replace (s - (s - d)) with d by lia. split; [lia|]. nia.
+  - destruct (N.eqb_spec (s - d) 0) as [|Hnz]; [discriminate|].
+    intros H. injection H as <- <-. replace (s - (s - d - 1)) with (d + 1) by lia.
+    rewrite N.pow_add_r, N.pow_1_r. destruct (rhe_bounds_aux m 10 ltac:(discriminate)) as [L2 U2].
+    set (m2 := rhe m 10) in *. split; [lia|]. nia.
+Qed.
+
+Lemma dec_mul_err a b r :
+  dec_mul a b = Some r ->
+  let s := d_scale a + d_scale b in let v := d_mant a * d_mant b in
+  d_scale r <= s /\
+  20 * (d_mant r * 10 ^ (s - d_scale r)) <= 20 * v + 11 * 10 ^ (s - d_scale r) /\
+  20 * v <= 20 * (d_mant r * 10 ^ (s - d_scale r)) + 11 * 10 ^ (s - d_scale r).
+Proof.
+  unfold dec_mul. cbv zeta.
+  destruct (N.eqb_spec (d_mant a) 0) as [Hz|_]; cbn [orb].
+  { intros H. injection H as <-. cbn [dec_zero d_mant d_scale]. rewrite Hz. pose proof (pow10_pos (d_scale a + d_scale b - 0)). lia. }
+  destruct (N.eqb_spec (d_mant b) 0) as [Hz|_].
+  { intros H. injection H as <-. cbn [dec_zero d_mant d_scale]. rewrite Hz, N.mul_0_r. pose proof (pow10_pos (d_scale a + d_scale b - 0)). lia. }
+  set (s := d_scale a + d_scale b). set (v := d_mant a * d_mant b).
+  destruct ((d_mant a <? two32) && (d_mant b <? two32)) eqn:Esm.
+  - apply andb_prop in Esm as [E1 E2]. apply N.ltb_lt in E1, E2.
+    assert (Hv : v < 18446744073709551616) by (unfold v, two32 in *; nia).
+    destruct (N.ltb_spec 28 s) as [Hgt|Hle].
+    + destruct (N.ltb_spec 47 s) as [H47|H47].
+      * intros H. injection H as <-. cbn [dec_zero d_mant d_scale]. rewrite N.sub_0_r. split; [lia|].
+        assert (10 ^ 48 <= 10 ^ s) by (apply N.pow_le_mono_r; [discriminate|lia]).
+        assert (E48 : 10 ^ 48 = 1000000000000000000000000000000000000000000000000) by reflexivity. lia.
+      * intros H. injection H as <-. cbn [d_mant d_scale]. split; [lia|].
+        destruct (rhe_bounds_aux v (10 ^ (s - 28)) (pow10_nz _)) as [L U]. unfold pow10. nia.
+    + intros H. injection H as <-. cbn [d_mant d_scale]. rewrite N.sub_diag, N.pow_0_r. lia.
+  - destruct (rescale v s) as [[m' s']|] eqn:Er; [|discriminate]. intros H. injection H as <-. cbn [d_mant d_scale].
+    apply rescale_err. exact Er.
+Qed.
+
+Lemma round_value a q : round_to_u128 a = Ok q -> q = rhu (d_mant a) (10 ^ d_scale a).
+Proof.
+  unfold round_to_u128, dec_round0, dec_to_u128. intros H. apply of_opt_ok in H. fold (pow10 (d_scale a)).
+  destruct (N.eqb_spec (d_scale a) 0) as [Hz|Hnz].
+  - destruct (d_neg a); [discriminate|]. injection H as <-. rewrite Hz. change (pow10 0) with 1.
+    rewrite N.div_1_r. unfold rhu. cbv zeta. rewrite N.div_1_r, N.mod_1_r. reflexivity.
+  - destruct (N.eqb_spec (d_mant a) 0) as [Hm|Hm].
+    + cbn [d_neg d_mant d_scale] in H. destruct (d_neg a); [discriminate|]. injection H as <-. rewrite Hm.
+      change (pow10 0) with 1. rewrite N.div_1_r.
+      unfold rhu. cbv zeta. rewrite N.div_0_l, N.mod_0_l by apply pow10_nz.
+      pose proof (pow10_pos (d_scale a)) as Hpos. destruct (N.leb_spec (pow10 (d_scale a)) (2 * 0)); [unfold pow10 in *; lia|reflexivity].
+    + cbn [d_neg d_mant d_scale] in H. destruct (if rhu _ _ =? 0 then false else d_neg a); [discriminate|].
+      injection H as <-. change (pow10 0) with 1. rewrite N.div_1_r. reflexivity.
+Qed.
+
+(* the fee charged for rate m/10^sr on a whole amount T is never a whole unit away from m*T/10^sr, for every rate and
+   every amount (also inside the class K_rate, where it may be the other neighbour of the exact value) *)
+Theorem rate_fee_within_a_unit rate total T calc :
+  dec_int_value total T -> rate_fee rate total = Ok calc ->
+  calc * 10 ^ d_scale rate < d_mant rate * T + 10 ^ d_scale rate /\
+  d_mant rate * T < calc * 10 ^ d_scale rate + 10 ^ d_scale rate.
+Proof.
+  intros (_ & _ & HT) H. unfold rate_fee in H. destruct (dec_mul rate total) as [r|] eqn:Em; [|discriminate].
+  cbn [of_opt bind] in H. pose proof (dec_mul_err _ _ _ Em) as (Hs & L & U). cbv zeta in *.
+  set (s := d_scale rate + d_scale total) in *. set (k := s - d_scale r) in *.
+  assert (Hcalc : calc = rhu (d_mant r) (10 ^ d_scale r)) by (apply round_value; exact H).
+  destruct (rhu_bounds_aux (d_mant r) (10 ^ d_scale r) (pow10_nz _)) as [RL RU]. rewrite <- Hcalc in RL, RU.
+  (* everything in units of 10^-s: 10^s = K * S', v = mr * T * 10^st *)
+  set (K := 10 ^ k) in *. set (S' := 10 ^ d_scale r) in *. set (Pr := 10 ^ d_scale rate). set (Pt := 10 ^ d_scale total).
+  assert (HKS : K * S' = Pr * Pt).
+  { unfold K, S', Pr, Pt, k, s. rewrite <- !N.pow_add_r. f_equal. lia. }
+  assert (HK : 0 < K) by apply pow10_pos. assert (HS : 0 < S') by apply pow10_pos.
+  assert (HPt : 0 < Pt) by apply pow10_pos. assert (HPr : 0 < Pr) by apply pow10_pos.
+  unfold pow10 in HT. fold Pt in HT. rewrite HT in L, U.
+  (* scale the two claims by Pt *)
+  assert (Goal1 : calc * Pr * Pt < (d_mant rate * T + Pr) * Pt).
+  { destruct (N.eq_dec (d_scale r) 0) as [Hz|Hnz].
+    - assert (S' = 1) by (unfold S'; rewrite Hz; reflexivity).
+      assert (calc = d_mant r) by (rewrite Hcalc; unfold S' in *; rewrite Hz; unfold rhu; cbv zeta; cbn; rewrite N.div_1_r, N.mod_1_r; reflexivity).
+      nia.
+    - assert (10 <= S') by (unfold S'; rewrite <- (N.pow_1_r 10) at 1; apply N.pow_le_mono_r; [discriminate|lia]).
+      nia. }
+  assert (Goal2 : d_mant rate * T * Pt < (calc * Pr + Pr) * Pt).
+  { destruct (N.eq_dec (d_scale r) 0) as [Hz|Hnz].
+    - assert (S' = 1) by (unfold S'; rewrite Hz; reflexivity).
+      assert (calc = d_mant r) by (rewrite Hcalc; unfold S' in *; rewrite Hz; unfold rhu; cbv zeta; cbn; rewrite N.div_1_r, N.mod_1_r; reflexivity).
+      nia.
+    - assert (10 <= S') by (unfold S'; rewrite <- (N.pow_1_r 10) at 1; apply N.pow_le_mono_r; [discriminate|lia]).
+      nia. }
+  split; nia.
+Qed.
+
+(* ---------------------------------------------------------------- the pro-rata fee is never a whole unit off either *)
+(* for every bid whose fee is at most 10^27 (also inside K_prorata): | F x - fee*x/quote | < 1 *)
+Theorem fee_for_rest_within_a_unit b fee x F :
+  0 < c_amt (b_quote b) -> c_amt (b_quote b) < B96 -> fee <= 10 ^ 27 -> x <= c_amt (b_quote b) ->
+  fee_for_rest b fee x = Ok F ->
+  F * c_amt (b_quote b) < x * fee + c_amt (b_quote b) /\ x * fee < F * c_amt (b_quote b) + c_amt (b_quote b).
+Proof.
+  intros HQ0 HQ Hfee Hx H. set (Q := c_amt (b_quote b)) in *.
+  assert (Hf96 : fee < B96) by (assert (10 ^ 27 < B96) by reflexivity; lia).
+  unfold fee_for_rest, quote_ratio, dec_of_u128, dec_from_u128 in H. fold Q in H.
+  destruct (N.ltb_spec x B96); [|lia]. destruct (N.ltb_spec Q B96); [|lia]. cbn [of_opt bind] in H.
+  destruct (dec_div_int_spec x Q HQ0 HQ Hx) as (r & Hr & Hneg & Hsc & Hval). rewrite Hr in H. cbn [of_opt bind] in H.
+  destruct (N.ltb_spec fee B96); [|lia]. cbn [of_opt bind] in H.
+  destruct (dec_mul r (dec_of_N fee)) as [p|] eqn:Em; [|discriminate]. cbn [of_opt bind] in H.
+  pose proof (dec_mul_err _ _ _ Em) as (Hs & L & U). cbv zeta in *. cbn [dec_of_N d_mant d_scale] in *.
+  rewrite N.add_0_r in *.
+  apply round_value in H.
+  destruct (rhu_bounds_aux (d_mant p) (10 ^ d_scale p) (pow10_nz _)) as [RL RU]. rewrite <- H in RL, RU.
+  destruct (rhe_bounds_aux (x * E28) Q ltac:(lia)) as [R1 R2]. fold (R28 x Q) in R1, R2. rewrite <- Hval in R1, R2.
+  set (m := d_mant r) in *. set (A := 10 ^ (28 - d_scale r)) in *. set (K := 10 ^ (d_scale r - d_scale p)) in *.
+  set (S' := 10 ^ d_scale p) in *. set (pm := d_mant p) in *.
+  assert (HE : E28 = A * K * S').
+  { unfold A, K, S'. rewrite <- !N.pow_add_r, E28_pow. f_equal. lia. }
+  assert (HA : 0 < A) by apply pow10_pos. assert (HK : 0 < K) by apply pow10_pos. assert (HS : 0 < S') by apply pow10_pos.
+  assert (Hfe : 10 * fee <= E28) by (unfold E28; change (10 ^ 27) with 1000000000000000000000000000 in Hfee; lia).
+  (* R = m * A; R * fee within fee/2 of x*fee*E28/Q, scaled by 2Q *)
+  assert (V1 : 2 * Q * (m * A * fee) <= 2 * (x * fee) * E28 + Q * fee) by nia.
+  assert (V2 : 2 * (x * fee) * E28 <= 2 * Q * (m * A * fee) + Q * fee) by nia.
+  (* the product: 20 pm K A within 11 K A of 20 m fee A *)
+  assert (P1 : 20 * (pm * K * A) <= 20 * (m * A * fee) + 11 * (K * A)) by nia.
+  assert (P2 : 20 * (m * A * fee) <= 20 * (pm * K * A) + 11 * (K * A)) by nia.
+  destruct (N.eq_dec (d_scale p) 0) as [Hz|Hnz].
+  - assert (HS1 : S' = 1) by (unfold S'; rewrite Hz; reflexivity).
+    assert (HF : F = pm) by (rewrite H, HS1; unfold rhu; cbv zeta; rewrite N.div_1_r, N.mod_1_r; reflexivity).
+    rewrite HS1, N.mul_1_r in HE. subst F.
+    (* pm * E28 = pm K A *)
+    assert (G1 : 20 * Q * (pm * E28) <= 20 * (x * fee) * E28 + 10 * Q * fee + 11 * Q * E28) by (rewrite HE in *; nia).
+    assert (G2 : 20 * (x * fee) * E28 <= 20 * Q * (pm * E28) + 10 * Q * fee + 11 * Q * E28) by (rewrite HE in *; nia).
+    split.
+    + assert (20 * E28 * (pm * Q) < 20 * E28 * (x * fee + Q)) by nia. nia.
+    + assert (20 * E28 * (x * fee) < 20 * E28 * (pm * Q + Q)) by nia. nia.
+  - assert (HS10 : 10 <= S') by (unfold S'; rewrite <- (N.pow_1_r 10) at 1; apply N.pow_le_mono_r; [discriminate|lia]).
+    (* F * S' within S'/2 of pm *)
+    assert (KA : 10 * (K * A) <= E28) by (rewrite HE; nia).
+    assert (G1 : 20 * Q * (F * E28) <= 20 * (x * fee) * E28 + 10 * Q * fee + 11 * Q * (K * A) + 10 * Q * E28).
+    { assert (T1 : 20 * (F * S' * K * A) <= 20 * (pm * K * A) + 10 * (S' * K * A)) by nia.
+      replace (F * E28) with (F * S' * K * A) by (rewrite HE; ring). replace (S' * K * A) with E28 in T1 by (rewrite HE; ring). nia. }
+    assert (G2 : 20 * (x * fee) * E28 < 20 * Q * (F * E28) + 10 * Q * fee + 11 * Q * (K * A) + 10 * Q * E28).
+    { assert (T1 : 20 * (pm * K * A) < 20 * (F * S' * K * A) + 10 * (S' * K * A)) by nia.
+      replace (F * E28) with (F * S' * K * A) by (rewrite HE; ring). replace (S' * K * A) with E28 in T1 by (rewrite HE; ring). nia. }
+    split.
+    + assert (20 * E28 * (F * Q) < 20 * E28 * (x * fee + Q)) by nia. nia.
+    + assert (20 * E28 * (x * fee) < 20 * E28 * (F * Q + Q)) by nia. nia.
+Qed.
+
+(* ---------------------------------------------------------------- price * size judged whole: never a whole unit off *)
+(* whenever the contract accepts a product price * size as a whole number g (also inside K_inexact, where the exact product
+   is not whole), g is less than one unit away from the exact product *)
+Theorem whole_total_within_a_unit p n t g :
+  mul_size p n = Ok t -> dec_has_fract t = false -> dec_to_u128 t = Some g ->
+  g * 10 ^ d_scale p < d_mant p * n + 10 ^ d_scale p /\ d_mant p * n < g * 10 ^ d_scale p + 10 ^ d_scale p.
+Proof.
+  intros Hm Hfr Hg. unfold mul_size in Hm. bind_inv Hm dn Hdn. unfold dec_of_u128 in Hdn. apply of_opt_ok in Hdn, Hm.
+  apply dec_from_u128_ok in Hdn as [_ ->].
+  pose proof (dec_mul_err _ _ _ Hm) as (Hs & L & U). cbv zeta in *. cbn [dec_of_N d_mant d_scale] in *.
+  rewrite N.add_0_r in *.
+  unfold dec_has_fract in Hfr. apply negb_false_iff, N.eqb_eq in Hfr. unfold pow10 in Hfr.
+  unfold dec_to_u128 in Hg. destruct (d_neg t); [discriminate|]. injection Hg as <-. unfold pow10.
+  pose proof (N.div_mod (d_mant t) (10 ^ d_scale t) (pow10_nz _)) as Hdm. rewrite Hfr, N.add_0_r in Hdm.
+  set (g := d_mant t / 10 ^ d_scale t) in *. set (S' := 10 ^ d_scale t) in *. set (K := 10 ^ (d_scale p - d_scale t)) in *.
+  assert (HKS : K * S' = 10 ^ d_scale p) by (unfold K, S'; rewrite <- N.pow_add_r; f_equal; lia).
+  assert (HK : 0 < K) by apply pow10_pos. assert (HS : 0 < S') by apply pow10_pos.
+  rewrite <- HKS. rewrite Hdm in L, U. split; nia.
+Qed.
